@@ -297,6 +297,60 @@ func (g *gen) trigger(cb *CB, w string) {
 	}
 }
 
+// caseDecoy: a case-sensitive callback with a pattern that carries no case flag of its own and is
+// spelled in another case than the device prints the word: it must never run.
+func (g *gen) caseDecoy(w string) CB {
+	r := g.r
+	v := g.render(w)
+	p := w
+	if v == w {
+		p = []string{strings.ToUpper(w), title(w)}[r.Intn(2)]
+	}
+	q := regexp.QuoteMeta(p)
+	cb := CB{Name: "decoy-case", Sensitive: true, Answers: r.Intn(4) != 0, Answer: answerWords[r.Intn(len(answerWords))]}
+	switch r.Intn(4) {
+	case 0:
+		cb.Re = q
+	case 1:
+		cb.Re = `(?m)^.*` + q
+	case 2:
+		cb.Re = q + `\S*`
+	case 3:
+		cb.Re = `(zz-never|` + q + `)`
+	}
+	if r.Intn(4) == 0 {
+		cb.Contains = "zz-never"
+	}
+	if r.Intn(4) == 0 {
+		cb.NotContains = "NoSuchText"
+	}
+	cb.Once = r.Intn(5) == 0
+	return cb
+}
+
+// orderOptions spells out, per callback, the order in which its options are handed to NewCallback.
+func (g *gen) orderOptions(d *Desc) {
+	for i := range d.CBs {
+		cb := &d.CBs[i]
+		names := []string{"name"}
+		add := func(c bool, n string) {
+			if c {
+				names = append(names, n)
+			}
+		}
+		add(cb.Contains != "", "contains")
+		add(cb.NotContains != "", "not-contains")
+		add(cb.Re != "", "re")
+		add(cb.Sensitive, "sensitive")
+		add(cb.Once, "once")
+		add(cb.Complete, "complete")
+		add(cb.ResetOpt, "reset")
+		add(cb.NextMs > 0, "next-timeout")
+		g.r.Shuffle(len(names), func(a, b int) { names[a], names[b] = names[b], names[a] })
+		cb.OptOrder = names
+	}
+}
+
 func (g *gen) notContains(cb *CB, before, after []string, others []string) {
 	r := g.r
 	pick := func(l []string) string {
@@ -406,6 +460,9 @@ func (g *gen) chain(fam string) Desc {
 	r := g.r
 	d := Desc{Family: fam, Hint: "complete", Replies: map[string][]string{}, MaxLines: 12, Echo: r.Intn(2) == 0}
 	k := 1 + r.Intn(4)
+	if fam == "nexttimeout" {
+		k = 2 + r.Intn(3) // room for a callback without next-timeout after the one that states it
+	}
 	d.Script = g.script
 	g.long = fam == "chain" || fam == "once"
 	perm := r.Perm(len(g.pool))
@@ -444,6 +501,7 @@ func (g *gen) chain(fam string) Desc {
 	mismatchComplete := false
 	retained := false
 	failAt := -1
+	delayAt := -1
 	switch fam {
 	case "timeout":
 		d.Hint = "timeout"
@@ -487,14 +545,29 @@ func (g *gen) chain(fam string) Desc {
 		}
 	case "nexttimeout":
 		d.Hint = "timeout"
-		if r.Intn(2) == 0 {
+		switch r.Intn(4) {
+		case 0:
 			d.TimeoutMs = 2000
 			ntAt, ntMs = r.Intn(k), 60+r.Intn(61)
-		} else {
+			cut = ntAt
+		case 1:
 			d.TimeoutMs = 60 + r.Intn(31)
 			ntAt, ntMs = 0, 400+r.Intn(201)
+			cut = ntAt
+		case 2:
+			// N >> T: the stated next-timeout is still in force in the loop after a second callback
+			// that states none; the device answers that one only after T has long passed
+			d.Hint = "complete"
+			d.TimeoutMs = 150
+			ntAt, ntMs = 0, 2500
+			delayAt = 2
+		case 3:
+			// N << T: after a second callback without next-timeout the device goes silent for
+			// good; the timeout error is due after N
+			d.TimeoutMs = 2500
+			ntAt, ntMs = 0, 100+r.Intn(101)
+			cut = 1
 		}
-		cut = ntAt
 	}
 
 	if d.Input != "" {
@@ -513,6 +586,9 @@ func (g *gen) chain(fam string) Desc {
 			}
 		}
 		d.Replies[ans[i]] = append(d.Replies[ans[i]], texts[i+1])
+	}
+	if delayAt >= 0 && delayAt <= k {
+		d.DelayText, d.DelayMs = texts[delayAt], 350+r.Intn(201)
 	}
 	if r.Intn(3) == 0 && fam != "quiet" {
 		d.Default = []string{"% Invalid input\n", "% Unknown command\n", "?\n"}[r.Intn(3)]
@@ -573,6 +649,34 @@ func (g *gen) chain(fam string) Desc {
 		}
 		cbs = append(cbs, cb)
 	}
+	// a callback without a function that is not complete: it swallows a banner line (reset), may
+	// state a next-timeout, may be once - and the dialogue goes on
+	if (fam == "chain" || fam == "once") && r.Intn(8) == 0 {
+		sAt := r.Intn(k + 1)
+		b := spare[0]
+		banner := strings.Join(g.fill(r.Intn(3)), " ") + " " + g.render(b) + "...\n"
+		cb := CB{Name: "silent", NilFunc: true, ResetOpt: r.Intn(3) == 0, Once: r.Intn(3) == 0}
+		for n := 0; n < 30; n++ {
+			g.trigger(&cb, b)
+			if t, err := mkTrigger(cb); err == nil && t.holds(banner) && !t.holds("") {
+				break
+			}
+		}
+		if r.Intn(3) == 0 {
+			cb.NextMs = 1000 + r.Intn(500)
+		}
+		switch {
+		case sAt == 0 && d.Input == "":
+			d.Opening = banner + d.Opening
+		case sAt == 0:
+			d.Replies[d.Input][0] = banner + d.Replies[d.Input][0]
+		default:
+			if l := d.Replies[ans[sAt-1]]; len(l) > 0 {
+				l[len(l)-1] = banner + l[len(l)-1]
+			}
+		}
+		cbs = append(cbs, cb)
+	}
 	// decoys
 	nDecoys := r.Intn(3)
 	if fam == "quiet" {
@@ -602,6 +706,9 @@ func (g *gen) chain(fam string) Desc {
 			cb.Once = r.Intn(6) == 0
 		}
 		cbs = append(cbs, cb)
+	}
+	if r.Intn(4) == 0 && len(cbs) < 6 {
+		cbs = append(cbs, g.caseDecoy(K[r.Intn(k+1)]))
 	}
 	r.Shuffle(len(cbs), func(i, j int) { cbs[i], cbs[j] = cbs[j], cbs[i] })
 	d.CBs = cbs
@@ -671,6 +778,10 @@ func (g *gen) soup() Desc {
 			cb.NilFunc, cb.Answers = true, false
 		}
 		d.CBs = append(d.CBs, cb)
+	}
+	if r.Intn(4) == 0 && len(d.CBs) < 6 {
+		d.CBs = append(d.CBs, g.caseDecoy(sub[r.Intn(len(sub))]))
+		r.Shuffle(len(d.CBs), func(i, j int) { d.CBs[i], d.CBs[j] = d.CBs[j], d.CBs[i] })
 	}
 	g.transport(&d)
 	return d
@@ -782,7 +893,10 @@ func admissible(d Desc) bool {
 			}
 		}
 		if cb.NilFunc && !cb.Complete {
-			return false
+			// runs unobserved: the oracle reconstructs it only if it resets the output and cannot hold on nothing
+			if cb.NoReset || cb.Answers || t.holds("") {
+				return false
+			}
 		}
 	}
 	for _, s := range append([]string{d.Opening, d.Default, d.PageLine, d.More, d.Confirm, d.Final}, flat(d.Replies)...) {
@@ -833,6 +947,7 @@ func GenCase(r *rand.Rand, long int) Desc {
 		default:
 			d = g.chain("nexttimeout")
 		}
+		g.orderOptions(&d)
 		if admissible(d) {
 			return d
 		}
@@ -846,7 +961,7 @@ func init() {
 		Level: "exploration",
 		Rule: "PRNG-generated callback lists (1-6 callbacks: contains / upper-case contains under insensitivity / case-sensitive / regexp in lower case, end-anchored, " +
 			"with own (?i) / contains+regexp / not-contains present-before, present-after, absent, other case / once / complete / complete without function / " +
-			"literal texts with leading / trailing blanks, tabs, newlines which the device sometimes leaves out / not-contains words with blanks around them occurring inside other words / reset-output off / next-timeout / functions that return an error on a chosen run (own validation error, or a one-shot transport write fault on the answer's return character); in 55 % of the cases trigger texts, patterns, not-contains texts and device output use letters with case from the Latin-1 supplement, " +
+			"literal texts with leading / trailing blanks, tabs, newlines which the device sometimes leaves out / not-contains words with blanks around them occurring inside other words / case-sensitive patterns without own case flag spelled in another case than the device prints / options handed to NewCallback in a PRNG order spelled out per callback / reset-output off / next-timeout / functions that return an error on a chosen run (own validation error, or a one-shot transport write fault on the answer's return character); in 55 % of the cases trigger texts, patterns, not-contains texts and device output use letters with case from the Latin-1 supplement, " +
 			"Cyrillic, Greek and a few whose case mapping changes the byte length, printed by the device in lower / Title / UPPER case) against a causal scripted device (answers typed by the callbacks advance the dialogue; echo on/off; repeated questions; " +
 			"several keywords in one text; decoys sharing keywords; 1 % of the cases are paged outputs of 60-100 / 101-140 / 301-360 pages with one callback run per page and a completing callback on the last page) under PRNG segmentation (1..16-byte, whole, geometric, mixed reads; boundaries fall inside multi-byte letters); texts of very different length so that the output a callback " +
 			"object is checked against shrinks and grows; 40 % of the chains with an input repeat the operation 2-3 times with the same callback objects. " +
@@ -866,8 +981,9 @@ func init() {
 			"patterns are written in lower case, or carry their own (?i), or belong to a case-sensitive callback",
 			"the boundary of the previous firing is examined again only if a poll came back empty, so a trigger holding there is not required to fire when later chunks exist",
 			"'timed out although a trigger held' is a violation only if the chunk had been delivered >= 300 ms before the deadline and the load canary was quiet; otherwise inconclusive",
-			"the timeout in force after a next-timeout callback is that value for the next loop; for later loops either that value or the operation's timeout is accepted; " +
+			"a stated next-timeout stays in force for the later read loops of the operation until another callback states one (the pinned library's behaviour, taken as the reference reading); " +
 				"lower bound exact, upper bound +1 s (inconclusive under load)",
+			"a callback without a function that is not complete runs unobserved; its runs are reconstructed from the read log (first boundary at which it is the first holding callback); it always resets the output",
 			"the device goes silent after 10-12 input lines, or after its last page (bounds every dialogue)",
 		},
 		Gen: func(tier string, seed int64) []mon.Case {
